@@ -4,3 +4,4 @@ import Mpd.Command
 import Mpd.AFrame
 import Mpd.F64
 import Mpd.Typed.Base
+import Mpd.Typed.Song
